@@ -80,6 +80,8 @@ static void handler(const unsigned char *req, size_t n, vbuf *resp, void *user) 
 		case R_RIGHT_ALTERED: { int k = S.sub, hit = 0; for (i = 0; i < cal.ncal; i++) if (!cal.cal[i].is_left && k-- == 0) { cal.cal[i].sib[5] ^= 1; hit = 1; break; } if (!hit) for (i = 0; i < cal.ncal; i++) if (!cal.cal[i].is_left) { cal.cal[i].sib[5] ^= 1; break; } break; }
 		case R_LEFT_ALTERED: for (i = 0; i < cal.ncal; i++) if (cal.cal[i].is_left) { cal.cal[i].sib[6] ^= 1; break; } break;
 		case R_NO_AGGR_TIME_FIELD: cal.cal_has_aggr = 0; break;
+		case R_RIGHT_REMOVED: for (i = 0; i < cal.ncal; i++) if (!cal.cal[i].is_left) { memmove(&cal.cal[i], &cal.cal[i + 1], sizeof(rlink) * (size_t)(cal.ncal - i - 1)); cal.ncal--; break; } break;
+		case R_RIGHT_ADDED: for (i = 0; i < cal.ncal && cal.ncal < RS_MAXCAL; i++) if (!cal.cal[i].is_left) { memmove(&cal.cal[i + 1], &cal.cal[i], sizeof(rlink) * (size_t)(cal.ncal - i)); cal.ncal++; break; } break;
 		default: break;
 	}
 	S.sent_cal = cal; S.have_cal = 1; S.sent_id = id;
